@@ -282,6 +282,11 @@ def run_property(prop, tier, *, jobs=None, only=None, verbose=False,
                            if k not in ("failures",)}
                           | dict(n_failures=len(ex.get("failures", []))))
 
+    # obligations refuted only by listed known findings are reported apart:
+    # the proof claim is about everything else
+    known_keys = {k["key"] for k in known_hits}
+    n_known_ob = sum(1 for k, v in by_key.items() if k in known_keys
+                     for _, o in v if o["status"] != "proved")
     wall = time.time() - t0
     if n_ob == 0 and not extras:
         undecided.append("no obligations were generated at all")
@@ -304,8 +309,9 @@ def run_property(prop, tier, *, jobs=None, only=None, verbose=False,
             assumptions=list(pmeta.get("assumptions", [])) + list(
                 META.GLOBAL_ASSUMPTIONS),
             coverage=dict(
-                obligations=n_ob + sum(e.get("obligations", 0)
-                                       for e in extras),
+                obligations=n_ob - n_known_ob + sum(
+                    e.get("obligations", 0) for e in extras),
+                obligations_refuted_by_listed_known_findings=n_known_ob,
                 discharged=n_proved + sum(e.get("discharged", 0)
                                           for e in extras),
                 checker_cmd=f"./check {prop} --tier {tier}",
